@@ -256,6 +256,17 @@ func c17Body(s *C17Script, res *Result) {
 				res.Probes["pod_completed"]++
 				c17AfterConsumerGone(api, p, "completion", fail, res)
 			}
+		case "terminate": // graceful deletion: the pod is marked for deletion and keeps running until the kubelet is done
+			if p := api.Pod(NS, st.Arg); p != nil && p.Spec.NodeName != "" && p.DeletionTimestamp == nil && !podTerminated(p) {
+				old := p
+				p = p.DeepCopy()
+				now := metav1.NewTime(time.Now())
+				p.DeletionTimestamp = &now
+				p.Finalizers = append(p.Finalizers, "kaisim/kubelet")
+				api.UpdatePod(p)
+				c17PodEvent(b, old, p, false)
+				res.Probes["pod_marked_for_deletion"]++
+			}
 		case "delete":
 			if p := api.Pod(NS, st.Arg); p != nil {
 				api.RemovePod(NS, st.Arg)
@@ -291,9 +302,10 @@ func c17Body(s *C17Script, res *Result) {
 	invariants("quiescence")
 	live := map[string][]string{}
 	for _, p := range api.Pods() {
-		if IsReservationPod(p) || p.DeletionTimestamp != nil {
+		if IsReservationPod(p) {
 			continue
 		}
+		// live = not finished: a pod marked for deletion keeps its device until it has actually stopped
 		if p.Status.Phase == corev1.PodPending || p.Status.Phase == corev1.PodRunning {
 			for _, grp := range PodGroups(p) {
 				live[grp] = append(live[grp], p.Name)
@@ -336,7 +348,7 @@ func c17AfterConsumerGone(api *SimAPI, gone *corev1.Pod, what string, fail func(
 	for _, grp := range PodGroups(gone) {
 		liveConsumers := 0
 		for _, p := range api.Pods() {
-			if IsReservationPod(p) || p.DeletionTimestamp != nil || p.Name == gone.Name {
+			if IsReservationPod(p) || p.Name == gone.Name {
 				continue
 			}
 			if p.Status.Phase == corev1.PodPending || p.Status.Phase == corev1.PodRunning {
